@@ -9,12 +9,14 @@
  * transitive) that ignores the edge kind; an array sorted by it (cmp(E[j], E[j+1]) <= 0 for adjacent elements, which
  * is what libc qsort -- TRUSTED -- guarantees for a total preorder) is sorted by source node.
  *
- * h_set_edge_ptrs (bounded stand-in: at most EP_N = 6 nodes, EP_M = 8 edges, all loops unwound): for EVERY edge array
- * with sources in [0, n) that is sorted by source, every node w and every edge index k:
+ * h_set_edge_ptrs_lc: dr_pi_dag_set_edge_ptrs under LOOP CONTRACTS on its three loops (invariants in units/c19.py; nothing
+ * of the function is unwound).  For EVERY edge array with sources in [0, n) that is sorted by source, every node w and
+ * every edge index k:
  *   edges_begin[w] <= k < edges_end[w]  <=>  E[k].u == w,     0 <= begin <= end <= m,
  *   begin[0] == 0, end[n-1] == m, begin[w+1] == end[w] (the ranges tile the edge array in node order).
- * Preconditions (stated): n >= 1 (a DAG has a root; with n == 0 the function writes T[-1]), every source inside the
- * DAG (decided for the real enumeration on the concrete DAG states in c19_dag.c).
+ * Labelled bounded: the two universal preconditions are spelled out over the harness arrays (LC_N nodes, LC_M edges),
+ * so n <= LC_N and m <= LC_M.  Preconditions (stated): n >= 1 (a DAG has a root; with n == 0 the function writes
+ * T[-1]), every source inside the DAG (decided for the real enumeration on the concrete DAG states in c19_dag.c).
  */
 #include "verif_common.h"
 #include "dr_dump.c"                            /* the real code */
@@ -49,46 +51,6 @@ void h_edge_cmp_lemmas(void) {
   VERIF_CANARY();
 }
 
-/* ------------------------------------------------------------------ bounded: dr_pi_dag_set_edge_ptrs */
-#ifndef EP_N
-#define EP_N 6
-#endif
-#ifndef EP_M
-#define EP_M 8
-#endif
-dr_pi_dag_node TN[EP_N];
-dr_pi_dag_edge TE[EP_M + 1];
-dr_pi_dag GE;
-
-void h_set_edge_ptrs(void) {
-  dr_global_state z = {0};
-  GS = z;
-  GS.opts.chk_level = nondet_char();
-  long n = nondet_long(), m = nondet_long();
-  __CPROVER_assume(1 <= n && n <= EP_N && 0 <= m && m <= EP_M);
-  for (int j = 0; j < EP_M; j++) {
-    TE[j].kind = nondet_edge_kind(); TE[j].u = nondet_long(); TE[j].v = nondet_long();
-    if (j < m) __CPROVER_assume(0 <= TE[j].u && TE[j].u < n);                 /* sources inside the DAG */
-    if (j > 0 && j < m) __CPROVER_assume(edge_cmp(&TE[j - 1], &TE[j]) <= 0);   /* what qsort with edge_cmp leaves (trusted) */
-  }
-  for (int i = 0; i < EP_N; i++) { TN[i].edges_begin = nondet_long(); TN[i].edges_end = nondet_long(); }
-  GE.n = n; GE.m = m; GE.T = TN; GE.E = TE; GE.S = 0;
-  long w = nondet_long(), k = nondet_long();      /* witnesses: every node, every edge */
-  __CPROVER_assume(0 <= w && w < n && 0 <= k && k < (m > 0 ? m : 1));      /* m == 0: no edge, k unused */
-  long uk = TE[k].u;
-
-  dr_pi_dag_set_edge_ptrs(&GE);
-
-  __CPROVER_assert(m == 0 || TE[k].u == uk, "set_edge_ptrs: the edge array is not changed");
-  __CPROVER_assert(0 <= TN[w].edges_begin && TN[w].edges_begin <= TN[w].edges_end && TN[w].edges_end <= m,
-                   "set_edge_ptrs: 0 <= edges_begin <= edges_end <= m for every node");
-  __CPROVER_assert(m == 0 || (TN[w].edges_begin <= k && k < TN[w].edges_end) == (uk == w),
-                   "set_edge_ptrs: [edges_begin, edges_end) of node w holds exactly the edges whose source is w");
-  __CPROVER_assert(TN[0].edges_begin == 0 && TN[n - 1].edges_end == m, "set_edge_ptrs: the ranges start at 0 and end at m");
-  __CPROVER_assert(w + 1 >= n || TN[w + 1].edges_begin == TN[w].edges_end, "set_edge_ptrs: the ranges tile the edge array in node order");
-  VERIF_CANARY();
-}
-
 /* ------------------------------------------------------------------ dr_pi_dag_set_edge_ptrs under LOOP CONTRACTS
    The three loops (nested pair + tail) carry invariants supplied from units/c19.py; nothing is unwound in the function.
    Witnesses g_w (node) and g_k (edge index) stand for "every node, every edge".  Sortedness is used only between the
@@ -96,10 +58,10 @@ void h_set_edge_ptrs(void) {
    (j >= k ==> u_j >= u_k) -- a consequence of "sorted by source" for each k.  The only bound left is the size of the
    two harness arrays (LC_N nodes, LC_M edges), over which the two universal preconditions are spelled out. */
 #ifndef LC_N
-#define LC_N 16
+#define LC_N 4
 #endif
 #ifndef LC_M
-#define LC_M 32
+#define LC_M 16
 #endif
 dr_pi_dag_node LN[LC_N + 1];
 dr_pi_dag_edge LE[LC_M + 1];
